@@ -14,6 +14,7 @@ import PhotVerif.Driver.Bkg
 import PhotVerif.Driver.Moments
 import PhotVerif.Driver.Units
 import PhotVerif.Driver.Effects
+import PhotVerif.Driver.Isophote
 namespace PhotVerif.Driver
 
 /-- driver state: the objects that live across lines (state-machine models) -/
@@ -21,7 +22,7 @@ structure DState where
   segm : Option PhotVerif.Model.Segm.State := none
 
 def handlers : List (String → List String → Option String) :=
-  [handleGeom, handleMask, handleApSum, handleDetect, handleDeblend, handleLazy, handleCatalog, handlePeaks, handleRender, handleApStats, handlePsf, handleBkg, handleMoments, handleUnits, handleEffects]
+  [handleGeom, handleMask, handleApSum, handleDetect, handleDeblend, handleLazy, handleCatalog, handlePeaks, handleRender, handleApStats, handlePsf, handleBkg, handleMoments, handleUnits, handleEffects, handleIsophote]
 
 def dispatch (st : DState) (line : String) : DState × String :=
   match tokens line with
